@@ -60,6 +60,7 @@ def wire(cfg: Dict[str, Any]) -> Dict[str, Any]:
     cfg = copy.deepcopy(cfg)
     top = [k for k, v in cfg["states"].items() if v.get("type") != "history"]
     far = "#" + cfg["id"] + "." + top[-1] if top else None
+    leafno = [0]
 
     def walk(c: Dict[str, Any], path: str, siblings: List[str], key: str) -> None:
         if c.get("type") == "history":
@@ -85,6 +86,15 @@ def wire(cfg: Dict[str, Any]) -> Dict[str, Any]:
                 t["target"] = "." + nxt
                 on["E1"] = [t]
         kids = c.get("states", {})
+        if not kids and c.get("type") != "final" and far is not None:
+            # E4: every second leaf (document order) leaves for the far top-level state, the others move to a sibling - so
+            # one event can make one region leave a parallel state while another region transitions inside it
+            leafno[0] += 1
+            if leafno[0] % 2 == 1 or not siblings or "." in siblings[(siblings.index(key) + 1) % len(siblings)]:
+                on["E4"] = [{"target": far, "guard": f"g|{path}|E4|0", "actions": [{"type": "tr", "params": {"s": f"{path}|E4|0"}}]}]
+            else:
+                nx = siblings[(siblings.index(key) + 1) % len(siblings)]
+                on["E4"] = [{"target": "." + nx, "guard": f"g|{path}|E4|0", "actions": [{"type": "tr", "params": {"s": f"{path}|E4|0"}}]}]
         if not kids and c.get("type") != "final" and far is not None:
             on["E2"] = [{"target": far, "guard": f"g|{path}|E2|0", "actions": [{"type": "tr", "params": {"s": f"{path}|E2|0"}}]}]
         elif kids:
